@@ -3,6 +3,7 @@ package props
 import (
 	"encoding/json"
 	"fmt"
+	"sort"
 
 	"github.com/gcash/bchd/chaincfg/chainhash"
 	"github.com/gcash/bchd/wire"
@@ -135,13 +136,17 @@ func c12Eval(w *mc.W, cas c12Msg) {
 		w.Outcome("fails: " + reason)
 		if root != nil {
 			c.Violate("accepts-message-the-specification-rejects/"+sanitizeReason(reason), "msg", cas, fmt.Sprintf("returned root %x", root[:4]))
+		} else {
+			c12Second(w, cas, pb, wantRoot, wantMatches, reason)
 		}
 		return
 	}
 	w.Outcome(fmt.Sprintf("succeeds with %d matches", min(len(wantMatches), 4)))
 	w.Nontrivial(mc.HashString(fmt.Sprint(cas.NumTx), cas.Hashes, cas.Flags, fmt.Sprint(cas.HonestN, cas.Dense, cas.DupPairs, cas.DupLevel, cas.DropHashes, cas.DropFlagBytes)))
 	if root == nil {
-		c.Violate("rejects-message-the-specification-accepts", "msg", cas, "")
+		// The statement demands soundness only ("either fails or returns ..."): a refusal is never a
+		// violation here (acceptance of honest proofs is C11's clause).  Counted, not reported.
+		w.Outcome("library fails although the independent evaluation succeeds (allowed)")
 		return
 	}
 	if ref.Hash32(*root) != wantRoot {
@@ -161,6 +166,42 @@ func c12Eval(w *mc.W, cas c12Msg) {
 		r, ok := ref.PMTVerifyLeaf(cas.NumTx, hashes, flags, items[i], ref.Hash32(*hs[i]))
 		if !ok || r != ref.Hash32(*root) {
 			c.Violate("reported-match-is-not-a-leaf-under-the-returned-root", "msg", cas, fmt.Sprintf("pos %d", items[i]))
+		}
+	}
+	c12Second(w, cas, pb, wantRoot, wantMatches, "")
+}
+
+// c12Second: a second extraction on the same object is an extraction of the same message: it may
+// fail, but if it returns a root, root and lists must again be the independent evaluation's (state
+// kept in the object - counters, appended lists - must not leak into the result).  Run where it is
+// cheap: short flag strings and the structured families.
+func c12Second(w *mc.W, cas c12Msg, pb *merkleblock.PartialBlock, wantRoot ref.Hash32, wantMatches []ref.PMTMatch, reason string) {
+	c := w.Ctx()
+	if !(len(cas.Flags) <= 2 || cas.HonestN > 0 || cas.Dense > 0 || cas.DiffPos > 0) {
+		return
+	}
+	var root2 *chainhash.Hash
+	if m, p := mc.Guard(func() { root2 = pb.ExtractMatches() }); p {
+		c.Violate("second-extraction-panics", "msg", cas, m)
+		return
+	}
+	w.Trans()
+	if root2 == nil {
+		return
+	}
+	if reason != "" {
+		c.Violate("second-extraction-accepts-message-the-specification-rejects/"+sanitizeReason(reason), "msg", cas, "the first extraction failed, the second returned a root")
+		return
+	}
+	items, hs := pb.GetItems(), pb.GetMatches()
+	if ref.Hash32(*root2) != wantRoot || len(items) != len(wantMatches) || len(hs) != len(wantMatches) {
+		c.Violate("second-extraction-differs-from-independent-evaluation", "msg", cas, fmt.Sprintf("%d items / %d hashes, want %d", len(items), len(hs), len(wantMatches)))
+		return
+	}
+	for i, m := range wantMatches {
+		if items[i] != m.Pos || ref.Hash32(*hs[i]) != m.Hash {
+			c.Violate("second-extraction-differs-from-independent-evaluation", "msg", cas, fmt.Sprintf("match %d", i))
+			return
 		}
 	}
 }
@@ -348,6 +389,74 @@ func runC12(c *mc.Ctx) {
 			c12Eval(w, ds[i])
 		})
 		c.Sample("msg", c12Msg{NumTx: 512, Dense: 512, DupPairs: 256})
+	}
+
+	// transaction counts at which 32-bit arithmetic on the count wraps: count*d crosses a multiple of
+	// 2^32 for d = 1..64 (a size or limit computed as count * constant), powers of two and 3*2^j, and
+	// the neighbourhood of the limit; each with four trivial messages.  Thorough: every one of the
+	// 2^32 counts with a one-hash message.
+	{
+		set := map[uint32]bool{}
+		for d := uint64(1); d <= 64; d++ {
+			for k := uint64(1); k <= d; k++ {
+				base := (k<<32 + d - 1) / d
+				for dd := int64(-1); dd <= 2; dd++ {
+					if v := int64(base) + dd; v >= 0 && v < 1<<32 {
+						set[uint32(v)] = true
+					}
+				}
+			}
+		}
+		for j := uint(0); j < 32; j++ {
+			for dd := int64(-1); dd <= 1; dd++ {
+				if v := int64(1)<<j + dd; v >= 0 && v < 1<<32 {
+					set[uint32(v)] = true
+				}
+				if v := int64(3)<<j + dd; v >= 0 && v < 1<<32 {
+					set[uint32(v)] = true
+				}
+			}
+		}
+		for dd := int64(-2); dd <= 2; dd++ {
+			set[uint32(int64(merkleblock.MaxTxnCount)+dd)] = true
+		}
+		var cl []uint32
+		for v := range set {
+			cl = append(cl, v)
+		}
+		sort.Slice(cl, func(i, j int) bool { return cl[i] < cl[j] })
+		shapes := []c12Msg{{Hashes: "0", Flags: "00"}, {Hashes: "0", Flags: "01"}, {Hashes: "01", Flags: "07"}, {Hashes: "", Flags: ""}}
+		c.Space("transaction counts at the wrap points of count*d (d <= 64), powers of two, 3*2^j and around the limit x 4 trivial messages", int64(len(cl)*len(shapes)))
+		c.ParFor(int64(len(cl)*len(shapes)), func(w *mc.W, i int64) {
+			m := shapes[i%int64(len(shapes))]
+			m.NumTx = cl[i/int64(len(shapes))]
+			w.State()
+			c12Eval(w, m)
+		})
+		if c.Thorough() {
+			c.Space("every transaction count 0..2^32-1 with a one-hash message", 1<<32)
+			c.ParFor(1<<20, func(w *mc.W, blk int64) {
+				h := chainhash.Hash(c12Alpha[0])
+				bad := 0
+				for lo := int64(0); lo < 1<<12; lo++ {
+					cnt := uint32(blk<<12 | lo)
+					if cnt <= merkleblock.MaxTxnCount {
+						w.State()
+						c12Eval(w, c12Msg{NumTx: cnt, Hashes: "0", Flags: "00"})
+						continue
+					}
+					// beyond the limit the statement demands a refusal: no reference evaluation needed
+					w.State()
+					w.Eval()
+					msg := wire.MsgMerkleBlock{Transactions: cnt, Flags: []byte{0}, Hashes: []*chainhash.Hash{&h}}
+					if merkleblock.NewMerkleBlockFromMsg(msg).ExtractMatches() != nil && bad < 3 {
+						bad++
+						c12Eval(w, c12Msg{NumTx: cnt, Hashes: "0", Flags: "00"}) // reports it with the full oracle
+					}
+				}
+				w.OutcomeN("fails: too many transactions", 1<<12)
+			})
+		}
 	}
 
 	// mutations of honest proofs
